@@ -88,6 +88,17 @@ class P:
                     if t == "[": d += 1
                     elif t == "]": d -= 1
                 continue
+            if self.accept("use"):          # `use path::*;` inside a body
+                while self.next()[1] != ";": pass
+                continue
+            if self.peek()[1] in ("unsafe", "{"):      # a block statement needs no `;`
+                e = self.primary(); self.accept(";")
+                if self.peek()[1] == "}" or self.peek()[0] == "eof": out.append(("tail", e))
+                else: out.append(("expr", e))
+                continue
+            if self.accept("while"):
+                c = self.expr_nostruct(); self.expect("{"); b = self.block(); self.expect("}"); self.accept(";")
+                out.append(("while", c, b)); continue
             if self.accept("let"):
                 self.accept("mut")
                 name = self.next()
@@ -143,26 +154,40 @@ class P:
     def postfix(self, e):
         while True:
             if self.peek() == ("id", "as"):
-                # a cast: skip the type
-                self.next(); d = 0
+                # a cast: the type is kept as text (pointer kernels need to know `*mut u8` from `*mut T`)
+                self.next(); d = 0; ty = []
                 while True:
                     t = self.peek()[1]
                     if d == 0 and (t in (")", ",", ";", "}", "{", "=>") or self.peek()[0] == "eof"): break
+                    if d == 0 and self.peek() == ("id", "as"): break
+                    if d == 0 and t in ("!=", "==", "&&", "||", "=", "+", "-", "/", "<=", ">="): break
                     if t in ("<", "("): d += 1
                     elif t in (">", ")"): d -= 1
-                    self.next()
+                    ty.append(t); self.next()
+                e = ("cast", e, " ".join(ty))
                 continue
             if self.peek()[1] == "." and self.peek(1)[0] == "id":
                 self.next(); name = self.next()[1]
-                if self.peek()[1] == "::":      # turbofish
-                    raise KernelError("turbofish in an integer kernel")
+                gen = None
+                if self.peek()[1] == "::" and self.peek(1)[1] == "<":      # turbofish
+                    self.next(); gen = self.generics()
                 if self.accept("("):
                     args = []
                     while not self.accept(")"):
                         args.append(self.expr()); self.accept(",")
-                    e = ("call", e, name, args)
+                    e = ("call", e, name, args, gen)
                 else: e = ("field", e, name)
             else: return e
+    def generics(self):
+        """skip a balanced `<...>` and return its text"""
+        self.expect("<"); d = 1; out = []
+        while d:
+            t = self.next()
+            if t[0] == "eof": raise KernelError("unbalanced generic arguments")
+            if t[1] == "<": d += 1
+            elif t[1] == ">": d -= 1
+            if d: out.append(t[1])
+        return " ".join(out)
     def primary(self):
         k, v = self.next()
         if k == "num": return ("num", int(v.replace("_", "").replace("usize", "")))
@@ -173,7 +198,12 @@ class P:
                 es = [e]
                 while not self.accept(")"): es.append(self.expr()); self.accept(",")
                 return ("tuple", es)
-            self.expect(")"); return e
+            self.expect(")")
+            if self.peek()[1] == "(" and e[0] == "var":      # `(drop_fn)(ptr, n)`
+                self.next(); args = []
+                while not self.accept(")"): args.append(self.expr()); self.accept(",")
+                return ("fcall", e[1], args, None)
+            return e
         if v == "match":
             scrut = self.expr_nostruct(); self.expect("{"); arms = []
             while not self.accept("}"):
@@ -183,7 +213,10 @@ class P:
                 self.accept(","); arms.append((pat, body))
             return ("match", scrut, arms)
         if v == "if":
-            c = self.expr_nostruct(); self.expect("{"); a = self.block(); self.expect("}")
+            if self.accept("let"):
+                pat = self.pattern(); self.expect("="); c = ("iflet", pat, self.expr_nostruct())
+            else: c = self.expr_nostruct()
+            self.expect("{"); a = self.block(); self.expect("}")
             b = None
             if self.accept("else"):
                 if self.peek()[1] == "if": b = [("tail", self.primary())]
@@ -194,14 +227,16 @@ class P:
         if v == "{":
             b = self.block(); self.expect("}"); return ("block", b)
         if k == "id":
-            path = [v]
-            while self.peek()[1] == "::" and self.peek(1)[0] == "id":
-                self.next(); path.append(self.next()[1])
+            path = [v]; gen = None
+            while self.peek()[1] == "::" and (self.peek(1)[0] == "id" or self.peek(1)[1] == "<"):
+                self.next()
+                if self.peek()[1] == "<": gen = self.generics()
+                else: path.append(self.next()[1])
             name = "::".join(path)
             if self.peek()[1] == "(" :
                 self.next(); args = []
                 while not self.accept(")"): args.append(self.expr()); self.accept(",")
-                return ("fcall", name, args)
+                return ("fcall", name, args, gen)
             if self.peek()[1] == "{" and not getattr(self, "nostruct", False) and name[0].isupper():
                 self.next(); fields = {}
                 while not self.accept("}"):
@@ -252,6 +287,7 @@ class Emit:
             if re.fullmatch(r"[a-z_][a-z_0-9]*", e[1]): return self.name(e[1])
             raise KernelError("unknown name %s" % e[1])
         if k == "deref": return self.pure(e[1], pre)
+        if k == "cast": return self.pure(e[1], pre)
         if k == "not": return "(!(%s))" % self.cond(e[1], pre)
         if k == "field":
             key = self.path(e)
@@ -309,6 +345,7 @@ class Emit:
             p = self.path(e[1]); return None if p is None else p + "." + e[2]
         if e[0] == "call" and not e[3]:
             p = self.path(e[1]); return None if p is None else p + "." + e[2] + "()"
+        if e[0] == "cast": return self.path(e[1])
         return None
     def value_expr(self, e):
         pre = []; v = self.pure(e, pre)
@@ -495,6 +532,354 @@ CTORS = [
         ["any_vec_raw"], ["iter.1", "iter.2", "start", "end", "original_len"]),
 ]
 
+
+# ------------------------------------------------------------------------------------------ memory-command kernels
+class EmitCmds(Emit):
+    """translate an element-moving function into the list of memory commands it issues, in order (`List MCmd`).
+
+    Pointers are tracked as (slot, typed): `mem.as_mut_ptr()` is slot 0 of the storage; `.cast::<T>()` / `as *mut T`
+    make a pointer typed; a typed `.add(k)` advances k slots, an untyped `.add(b)` needs `b = element_size * k`
+    (anything else is a KernelError: the byte offset is not a whole number of elements)."""
+    def __init__(self, env, state, ptr_env=None, ignore=None, helpers=None, flags=None):
+        Emit.__init__(self, env, {}, {}, state=state, ignore=ignore)
+        self.ptrs = dict(ptr_env or {})      # rust path -> (lean slot term, typed)
+        self.sizes = set()                   # locals holding the element size in bytes
+        self.helpers = helpers or {}         # "self.bytes()" -> parsed body of the method
+        self.flags = flags or {}             # "Unknown::is" -> lean Bool term, "mem::needs_drop" -> ...
+        self.declared = set()
+        self.slices = {}                     # local -> (slot, count) of a `slice_from_raw_parts_mut`
+        self.dropfns = set()                 # locals bound to `Some(drop_fn)`
+        self.typeids = set()                 # locals holding the vector's element type id
+        self.zeros = set()                   # counters initialised to 0 and not yet touched
+        self.mode = None                     # "pre" / "post": the part of a function before / after its write loop
+        self.suppress = False                # post mode: commands before the loop are not emitted again
+        self.written = None                  # post mode: lean name of the loop's result
+
+    def nat(self, e):
+        pre = []; v = self.pure(e, pre)
+        if pre: raise KernelError("checked arithmetic inside a memory kernel expression")
+        return par(v)
+    def nat_pre(self, e):
+        """-> (bindings, lean term): `let t ← checkedAdd a b msg` bindings of checked arithmetic"""
+        pre = []; v = self.pure(e, pre)
+        for b in pre:
+            if not re.fullmatch(r"let t\d+ ← checked(Add|Mul) .*", b): raise KernelError("unsupported computation in a memory kernel")
+        return pre, par(v)
+    def with_pre(self, pre, body):
+        for b in reversed(pre):
+            m = re.fullmatch(r"let (t\d+) ← (.*)", b)
+            body = "(match %s with\n  | .ok %s => %s\n  | .panic m => [MCmd.panic m]\n  | .ub m => [MCmd.panic m])" % (m.group(2), m.group(1), body)
+        return body
+    def is_size(self, e):
+        if e[0] == "var" and e[1] in self.sizes: return True
+        if e[0] == "cast": return self.is_size(e[1])
+        if e[0] == "call" and e[2] == "size" and not e[3] and e[1][0] == "call" and e[1][2] == "element_layout": return True
+        if e[0] == "fcall" and e[1].split("::")[-1] in ("size_of", "element_size"): return True
+        return False
+    def elems_of_bytes(self, e):
+        """a byte count that is `element_size * k` -> lean term for k"""
+        if self.is_size(e): return "1"
+        if e[0] == "bin" and e[1] == "*":
+            if self.is_size(e[2]): return self.nat(e[3])
+            if self.is_size(e[3]): return self.nat(e[2])
+        raise KernelError("byte count `%s` is not a multiple of the element size" % unparse(e))
+    def ptr(self, e):
+        """-> (lean slot term, typed) or None if `e` is not a pointer expression this translator knows"""
+        k = e[0]
+        key = self.path(e) if k in ("var", "field", "call") else None
+        if key is not None and key in self.ptrs: return self.ptrs[key]
+        if key is not None and key in self.helpers:
+            body = self.helpers[key]
+            if len(body) == 1 and body[0][0] == "tail": return self.ptr(body[0][1])
+            raise KernelError("helper %s is not a single expression" % key)
+        if k == "cast":
+            p = self.ptr(e[1])
+            if p is None: return None
+            ty = e[2].replace(" ", "")
+            if not ty.startswith("*"): raise KernelError("pointer cast to %s" % e[2])
+            if ty.endswith("_"): return p
+            return (p[0], not ty.endswith("u8"))
+        if k == "block" and len(e[1]) == 1 and e[1][0][0] == "tail": return self.ptr(e[1][0][1])
+        if k == "fcall" and e[1].split("::")[-1] in ("element_ptr_at", "element_mut_ptr_at") and len(e[2]) == 2:
+            return (self.nat(e[2][1]), False)
+        if k == "call":
+            recv, m, args = e[1], e[2], e[3]
+            if m in ("as_mut_ptr", "as_ptr") and not args and self.path(recv) == "self.mem": return ("0", False)
+            p = self.ptr(recv)
+            if p is None: return None
+            if m == "cast" and not args:
+                gen = (e[4] or "").replace(" ", "")
+                return (p[0], gen != "u8")
+            if m == "add" and len(args) == 1:
+                k_ = self.nat(args[0]) if p[1] else self.elems_of_bytes(args[0])
+                return ("(%s + %s)" % (p[0], k_), p[1])
+            raise KernelError("unsupported pointer method .%s()" % m)
+        return None
+    def slot(self, e, what):
+        p = self.ptr(e)
+        if p is None: raise KernelError("%s: `%s` is not a known element pointer" % (what, unparse(e)))
+        return p
+    def flag(self, e):
+        """a compile-time condition -> lean Bool term, or None"""
+        if e[0] == "not":
+            f = self.flag(e[1]); return None if f is None else "(!%s)" % f
+        if e[0] == "fcall" and e[1] in self.flags and not e[2]: return self.flags[e[1]]
+        return None
+    def cond(self, e, pre):
+        f = self.flag(e)
+        if f is not None: return f
+        if e[0] == "bin" and e[1] in ("==", "!="):
+            a, b = self.ptr(e[2]), self.ptr(e[3])
+            if a is not None and b is not None:
+                return "(%s %s %s)" % (a[0], e[1], b[0])
+            if (a is None) != (b is None): raise KernelError("comparison of a pointer with a non-pointer")
+        return Emit.cond(self, e, pre)
+
+    def declare(self, name):
+        if name in self.ignore: return
+        if name in self.declared: raise KernelError("local `%s` is declared twice (shadowing is not supported)" % name)
+        self.declared.add(name)
+    def cmd(self, term, rest):
+        if self.suppress: return self.cmds(rest)
+        return "%s ::\n  %s" % (term, self.cmds(rest))
+    def loop(self, s, rest):
+        """the write loop of `Splice::drop`: `while written < limit { take the next replacement value or break;
+        check its type; move it into *ptr; ptr += one element; written += 1 }`"""
+        c, body = s[1], s[2]
+        if not (c[0] == "bin" and c[1] == "<" and c[2][0] == "var" and c[2][1] in self.zeros):
+            raise KernelError("loop condition is not `counter < limit` with a counter starting at 0")
+        W = c[2][1]; limit = self.nat(c[3])
+        if len(body) != 5: raise KernelError("write loop body has %d statements, expected 5" % len(body))
+        b0, b1, b2, b3, b4 = body
+        ok = (b0[0] == "let" and b0[2][0] == "match" and self.path(b0[2][1]) == "self.replace_with.next()" and len(b0[2][2]) == 2)
+        if ok:
+            arms = dict((a[0][0], (a[0][1], a[1])) for a in b0[2][2])
+            ok = set(arms) == {"Some", "None"} and arms["Some"][1] == ("var", arms["Some"][0]) and arms["None"][1] == ("var", "break")
+        if not ok: raise KernelError("write loop does not start with `let x = match self.replace_with.next() { Some(x) => x, None => break }`")
+        X = b0[1]
+        ok = (b1[0] == "expr" and b1[1][0] == "fcall" and b1[1][1].split("::")[-1] == "assert_types_equal" and len(b1[1][2]) == 2
+              and b1[1][2][0][0] == "var" and b1[1][2][0][1] in self.typeids
+              and b1[1][2][1][0] == "call" and b1[1][2][1][2] == "value_typeid" and b1[1][2][1][1] == ("var", X))
+        if not ok: raise KernelError("write loop does not check the value's type against the vector's element type")
+        ok = b2[0] == "expr" and b2[1][0] == "call" and b2[1][2] == "move_into" and b2[1][1] == ("var", X) and len(b2[1][3]) == 2
+        if not ok: raise KernelError("write loop does not move the value in")
+        P = b2[1][3][0]
+        if P[0] != "var" or P[1] not in self.ptrs: raise KernelError("write loop: move_into target is not a tracked pointer")
+        if not self.is_size(b2[1][3][1]): raise KernelError("write loop: move_into size argument is not the element size")
+        slot0, typed = self.ptrs[P[1]]
+        ok = b3[0] == "assign" and b3[1] == P and b3[2] == "="
+        if ok:
+            adv = self.ptr(b3[3])
+            ok = adv is not None and adv[0] == "(%s + 1)" % slot0
+        if not ok: raise KernelError("write loop does not advance the pointer by exactly one element")
+        ok = b4[0] == "assign" and b4[1] == ("var", W) and b4[2] == "+=" and b4[3] == ("num", 1)
+        if not ok: raise KernelError("write loop does not count the written values one by one")
+        self.zeros.discard(W)
+        if self.mode == "pre": return "[MCmd.writeLoop %s %s]" % (slot0, limit)
+        if self.mode == "post":
+            self.suppress = False
+            return "(let %s := %s;\n  %s)" % (self.name(W), self.written, self.cmds(rest))
+        raise KernelError("a write loop in a function that is not split around it")
+    def cmds(self, stmts):
+        """-> lean term of type `List MCmd`"""
+        if not stmts: return "[]"
+        s, rest = stmts[0], stmts[1:]
+        if s[0] == "let":
+            name, rhs = s[1], s[2]
+            self.declare(name)
+            if name in self.ignore: return self.cmds(rest)
+            if self.is_size(rhs): self.sizes.add(name); return self.cmds(rest)
+            if rhs[0] == "fcall" and rhs[1].split("::")[-1] == "slice_from_raw_parts_mut" and len(rhs[2]) == 2:
+                p = self.slot(rhs[2][0], "slice_from_raw_parts_mut")
+                if not p[1]: raise KernelError("slice of an untyped pointer")
+                self.slices[name] = (p[0], self.nat(rhs[2][1])); return self.cmds(rest)
+            if rhs[0] == "fcall" and rhs[1].split("::")[-1] == "element_typeid": self.typeids.add(name); return self.cmds(rest)
+            p = self.ptr(rhs)
+            if p is not None:
+                nm = self.name(name) + "_p"
+                self.ptrs[name] = (nm, p[1])
+                return "(let %s := %s;\n  %s)" % (nm, p[0], self.cmds(rest))
+            if rhs == ("num", 0): self.zeros.add(name)
+            pre, v = self.nat_pre(rhs); nm = self.name(name); self.env.pop(name, None)
+            return self.with_pre(pre, "(let %s := %s;\n  %s)" % (nm, v, self.cmds(rest)))
+        if s[0] == "assign":
+            key = self.path(s[1])
+            if key not in self.state: raise KernelError("assignment to %s" % (key,))
+            v = self.nat(s[3]); cur = self.state[key]
+            if s[2] == "-=": v = "(%s - %s)" % (cur, v)
+            elif s[2] == "+=": v = "(%s + %s)" % (cur, v)
+            if self.suppress: return "(let %s := %s;\n  %s)" % (cur, v, self.cmds(rest))
+            return "(let %s := %s;\n  MCmd.setLen %s ::\n  %s)" % (cur, v, cur, self.cmds(rest))
+        if s[0] == "while": return self.loop(s, rest)
+        if s[0] == "assert":
+            c = self.cond(s[1], [])
+            msg = s[2] if s[2] is not None else '"assertion failed: %s"' % unparse(s[1])
+            return "(if %s then\n  %s\n  else [MCmd.panic %s])" % (c, self.cmds(rest), msg)
+        if s[0] == "return":
+            if s[1] is not None: raise KernelError("memory kernel returns a value")
+            return "[]"
+        if s[0] in ("expr", "tail"):
+            e = s[1]
+            if e[0] == "block": return self.cmds(list(e[1]) + list(rest))
+            if e[0] == "if":
+                c = e[1]
+                if c[0] == "iflet":
+                    (pat, binder), scrut = c[1], c[2]
+                    if pat != "Some" or binder is None: raise KernelError("unsupported `if let` pattern %s" % pat)
+                    key = self.path(scrut)
+                    if key is None or not (key.endswith(".drop_fn") or key == "drop_fn"):
+                        raise KernelError("`if let Some(..)` on something other than the vector's drop_fn")
+                    if "hasDropFn" not in self.flags: raise KernelError("this kernel has no destructor flag")
+                    self.dropfns.add(binder); cl = self.flags["hasDropFn"]
+                else:
+                    cl = self.cond(c, [])
+                a = self.cbranch(e[2], rest); b = self.cbranch(e[3] or [], rest)
+                return "(if %s then\n  %s\n  else\n  %s)" % (cl, a, b)
+            if e[0] == "call":
+                key = (self.path(e[1]) or "") + "." + e[2]
+                if key == "self.reserve_one" and not e[3]: return self.cmd("MCmd.reserveOne", rest)
+                if key == "any_vec_raw.reserve" and len(e[3]) == 1: return self.cmd("MCmd.reserve %s" % self.nat(e[3][0]), rest)
+                if key == "self.op.consume" and not e[3]: return self.cmd("MCmd.consume", rest)
+                if e[2] == "move_into" and self.path(e[1]) == "value" and len(e[3]) == 2:
+                    p = self.slot(e[3][0], "move_into")
+                    if not self.is_size(e[3][1]): raise KernelError("move_into: size argument is not the element size")
+                    return self.cmd("MCmd.moveInto %s" % p[0], rest)
+                raise KernelError("unsupported call .%s()" % e[2])
+            if e[0] == "fcall":
+                fn = e[1]; a = e[2]; short = fn.split("::")[-1]
+                if fn in ("ptr::copy", "core::ptr::copy") and len(a) == 3:
+                    ps, pd = self.slot(a[0], "ptr::copy"), self.slot(a[1], "ptr::copy")
+                    if ps[1] != pd[1]: raise KernelError("ptr::copy between a typed and an untyped pointer")
+                    n = self.nat(a[2]) if ps[1] else self.elems_of_bytes(a[2])
+                    return self.cmd("MCmd.copy false %s %s %s" % (ps[0], pd[0], n), rest)
+                if short == "copy_bytes" and len(a) == 3:
+                    ps, pd = self.slot(a[0], "copy_bytes"), self.slot(a[1], "copy_bytes")
+                    if ps[1] or pd[1]: raise KernelError("copy_bytes on a typed pointer")
+                    return self.cmd("MCmd.copy true %s %s %s" % (ps[0], pd[0], self.elems_of_bytes(a[2])), rest)
+                if short == "copy_nonoverlapping_value" and len(a) == 3:
+                    ps, pd = self.slot(a[0], "copy_nonoverlapping_value"), self.slot(a[1], "copy_nonoverlapping_value")
+                    if not self.is_size(a[2]): raise KernelError("copy_nonoverlapping_value: size argument is not the element size")
+                    return self.cmd("MCmd.copyOne %s %s" % (ps[0], pd[0]), rest)
+                if short == "drop_elements_range" and len(a) == 3:
+                    return self.cmd("MCmd.dropRange %s %s" % (self.nat(a[1]), self.nat(a[2])), rest)
+                if short == "move_elements_at" and len(a) == 4:
+                    return self.cmd("MCmd.moveElems %s %s %s" % (self.nat(a[1]), self.nat(a[2]), self.nat(a[3])), rest)
+                if fn in self.dropfns and len(a) == 2:
+                    p = self.slot(a[0], "drop_fn")
+                    return self.cmd("MCmd.dropFn %s %s" % (p[0], self.nat(a[1])), rest)
+                if fn in ("ptr::drop_in_place", "core::ptr::drop_in_place") and len(a) == 1:
+                    if a[0][0] == "var" and a[0][1] in self.slices:
+                        sl = self.slices[a[0][1]]
+                        return self.cmd("MCmd.dropSlice %s %s" % sl, rest)
+                    p = self.slot(a[0], "drop_in_place")
+                    if not p[1]: raise KernelError("drop_in_place through an untyped pointer")
+                    return self.cmd("MCmd.dropInPlace %s" % p[0], rest)
+                if fn in ("mem::forget", "core::mem::forget") and len(a) == 1: return self.cmds(rest)
+                raise KernelError("unsupported call %s()" % fn)
+            raise KernelError("unsupported statement %s" % unparse(e))
+        raise KernelError("unsupported statement kind %r" % s[0])
+    def cbranch(self, stmts, rest):
+        saved = (dict(self.env), dict(self.ptrs), set(self.sizes), set(self.declared), dict(self.slices), set(self.dropfns),
+                 set(self.typeids), set(self.zeros), self.suppress)
+        try:
+            ends = stmts and stmts[-1][0] == "return"
+            return "(" + self.cmds(list(stmts) + ([] if ends else list(rest))) + ")"
+        finally:
+            (self.env, self.ptrs, self.sizes, self.declared, self.slices, self.dropfns, self.typeids, self.zeros, self.suppress) = saved
+
+MCMD_DECL = """/-- one memory effect of an element-moving function, in program order; slots are element indices
+into the vector's storage -/
+inductive MCmd where
+  /-- `self.reserve_one()` -/
+  | reserveOne
+  /-- an assignment to `AnyVecRaw::len` -/
+  | setLen (n : Nat)
+  /-- `ptr::copy` (`erased = false`) or `crate::copy_bytes` (`erased = true`) of `n` element slots -/
+  | copy (erased : Bool) (src dst n : Nat)
+  /-- `copy_nonoverlapping_value` of one element -/
+  | copyOne (src dst : Nat)
+  /-- `value.move_into(slot)` -/
+  | moveInto (slot : Nat)
+  /-- `utils::move_elements_at` -/
+  | moveElems (src dst n : Nat)
+  /-- `utils::drop_elements_range` -/
+  | dropRange (s e : Nat)
+  /-- the erased destructor `(drop_fn)(ptr(s), n)` -/
+  | dropFn (s n : Nat)
+  /-- `ptr::drop_in_place` of the typed slice of `n` elements at `s` -/
+  | dropSlice (s n : Nat)
+  /-- `ptr::drop_in_place` of the typed element at `s` -/
+  | dropInPlace (s : Nat)
+  /-- `self.op.consume()` -/
+  | consume
+  /-- `any_vec_raw.reserve(n)` -/
+  | reserve (n : Nat)
+  /-- the write loop of `Splice::drop`: at most `limit` values of the replacement iterator, each type-checked and
+  moved into consecutive slots from `slot` on -/
+  | writeLoop (slot limit : Nat)
+  | panic (msg : String)
+  deriving Repr, DecidableEq
+"""
+UNK = {"Unknown::is": "(!known)"}
+CMD_KERNELS = [
+    # (lean name, file, fn, marker, params, env, state, ptr_env, ignore, helper fns, flags)
+    ("insert_unchecked_cmds", "any_vec_raw.rs", "insert_unchecked", None, "(vlen index : Nat) (known : Bool)",
+        {"index": "index"}, {"self.len": "vlen"}, {}, [], [], UNK),
+    ("push_unchecked_cmds", "any_vec_raw.rs", "push_unchecked", None, "(vlen : Nat) (known : Bool)",
+        {}, {"self.len": "vlen"}, {}, [], [], UNK),
+    ("clear_cmds", "any_vec_raw.rs", "clear", None, "(vlen : Nat) (hasDropFn : Bool)",
+        {}, {"self.len": "vlen"}, {}, [], [], {"hasDropFn": "hasDropFn"}),
+    ("pop_consume_cmds", "ops/pop.rs", "consume", None, "", {}, {}, {}, [], [], {}),
+    ("remove_consume_cmds", "ops/remove.rs", "consume", None, "(index last_index : Nat) (known : Bool)",
+        {"self.index": "index", "self.last_index": "last_index"}, {"any_vec_raw.len": "vlen"}, {}, ["any_vec_raw"], ["bytes"], UNK),
+    ("swap_remove_consume_cmds", "ops/swap_remove.rs", "consume", None, "(element last_index : Nat)",
+        {"self.last_index": "last_index"}, {"any_vec_raw.len": "vlen"}, {"self.element": ("element", False)}, ["any_vec_raw"], [], {}),
+    ("drain_drop_cmds", "ops/drain.rs", "drop", None, "(iter_index iter_end start end_ original_len : Nat)",
+        {"self.iter.index": "iter_index", "self.iter.end": "iter_end", "self.start": "start", "self.end": "end_",
+         "self.original_len": "original_len"}, {"any_vec_raw.len": "vlen"}, {}, ["any_vec_raw"], [], {}),
+    ("move_elements_at_cmds", "any_vec_ptr.rs", "move_elements_at", None, "(src_index dst_index len : Nat) (known : Bool)",
+        {"src_index": "src_index", "dst_index": "dst_index", "len": "len"}, {}, {}, ["any_vec_raw"], [], UNK),
+    ("drop_elements_range_cmds", "any_vec_ptr.rs", "drop_elements_range", None,
+        "(start_index end_index : Nat) (known hasDropFn needsDrop : Bool)",
+        {"start_index": "start_index", "end_index": "end_index"}, {}, {}, ["any_vec_raw"], [],
+        dict(UNK, **{"hasDropFn": "hasDropFn", "mem::needs_drop": "needsDrop"})),
+    ("temp_drop_cmds", "ops/temp.rs", "drop", "impl<Op: Operation> Drop for TempValue", "(slot : Nat) (known hasDropFn : Bool)",
+        {}, {}, {"self.op.bytes()": ("slot", False)}, ["drop_fn"], [], dict(UNK, hasDropFn="hasDropFn")),
+]
+
+SPLICE_ENV = {"self.iter.index": "iter_index", "self.iter.end": "iter_end", "self.start": "start", "self.end": "end_",
+              "self.original_len": "original_len", "self.replace_with.len()": "replace_len"}
+SPLICE_PARAMS = "(iter_index iter_end start end_ original_len replace_len : Nat)"
+
+def translate_cmds(repo_src):
+    out = [MCMD_DECL]; errors = {}
+    for (lname, f, fn, marker, params, env, state, ptr_env, ignore, helper_fns, flags, mode) in \
+            [k + (None,) for k in CMD_KERNELS] + [
+            ("splice_drop_pre_cmds", "ops/splice.rs", "drop", None, SPLICE_PARAMS, SPLICE_ENV, {"any_vec_raw.len": "vlen"}, {},
+             ["any_vec_raw", "any_vec_ptr"], [], {}, "pre"),
+            ("splice_drop_post_cmds", "ops/splice.rs", "drop", None, SPLICE_PARAMS + " (written_ : Nat)", SPLICE_ENV,
+             {"any_vec_raw.len": "vlen"}, {}, ["any_vec_raw", "any_vec_ptr"], [], {}, "post")]:
+        try:
+            src = strip_comments(open(os.path.join(repo_src, f)).read())
+            helpers = {}
+            for h in helper_fns:
+                helpers["self.%s()" % h] = P(tokenize(find_fn(src, h, marker))).block()
+            ast = P(tokenize(find_fn(src, fn, marker))).block()
+            em = EmitCmds(env, state, ptr_env, ignore, helpers, flags)
+            em.mode = mode
+            if mode == "post": em.suppress = True; em.written = "written_"
+            lean = em.cmds(ast)
+            if mode == "post" and em.suppress: raise KernelError("no write loop found")
+        except KernelError as ex:
+            errors[lname] = str(ex)
+            lean = '[MCmd.panic "kernel %s could not be translated: %s"]' % (lname, str(ex).replace('"', "'"))
+        except Exception as ex:
+            errors[lname] = "translator failure: %r" % (ex,)
+            lean = '[MCmd.panic "kernel %s: translator failure"]' % lname
+        out.append("/-- `%s` in src/%s -/" % (fn, f))
+        out.append("def %s %s : List MCmd :=\n  %s\n" % (lname, params, lean))
+    return "\n".join(out), errors
+
 def translate(repo_src):
     """-> (lean text, {kernel: error}) ; kernels that cannot be translated are emitted as `Res.ub "<why>"` stubs"""
     out = ["/- generated by py/kernelgen.py from /repo/src on every run: the crate's pure integer kernels -/",
@@ -574,6 +959,8 @@ def translate(repo_src):
         errors["iter_clone"] = "translator failure: %r" % (ex,); lean = 'Res.ub "kernel iter_clone: translator failure"'
     out.append("/-- `clone` in src/iter.rs -/")
     out.append("def iter_clone (index end_ : Nat) : Res KEff :=\n  %s\n" % lean)
+    ctext, cerrs = translate_cmds(repo_src)
+    out.append(ctext); errors.update(cerrs)
     out.append("end AnyVec.Gen.Kernel\n")
     return "\n".join(out), errors
 
